@@ -174,7 +174,7 @@ pub fn c03_q_localized_text_string_limit() {
 #[kani::stub(::std::string::String::from_utf8, crate::stubs::string_from_utf8)]
 #[kani::stub(::regex::Regex::new, crate::stubs::regex_new)]
 #[kani::unwind(5)]
-pub fn c03_t_variant_array_limit() {
+pub fn c03_x_variant_array_limit() {
     let mut bytes: [u8; 17] = kani::any(); // mask + length + up to 3 Int32
     bytes[0] = 0x86;
     let limit: usize = kani::any();
